@@ -225,7 +225,7 @@ class Ctx:
         target = target or f"Props/{self.prop}.vo"
         vfile = os.path.join(COQ, target[:-1])
         names = theorem_names(vfile)
-        self.theorems = names
+        self.theorems = list(self.theorems) + names
         self.obligations += len(names)
         with open(os.path.join(COQ, ".lock"), "w") as lk:
             fcntl.flock(lk, fcntl.LOCK_EX)
@@ -250,7 +250,7 @@ class Ctx:
                 if r2.returncode != 0:
                     r, out = r2, out2
                 else:
-                    self.assumptions_seen = parse_assumptions(out2)
+                    self.assumptions_seen = list(dict.fromkeys(list(self.assumptions_seen) + parse_assumptions(out2)))
         self.checker_cmd = f"make -C {COQ} {target} && coqc {' '.join(coq_args())} {target[:-1]}"
         if r.returncode != 0:
             where = locate_coq_error(out)
